@@ -610,6 +610,11 @@ func (s *Service) DeleteTopic(topic string) error {
 	defer s.mu.Unlock()
 	delete(s.closedTopics, topic)
 	s.topics.DeleteTopic(topic)
+	// The handlers defined on the topic outlive its state: register them again,
+	// so that they receive the events of the topic when it returns.
+	for _, h := range s.handlers[topic] {
+		s.topics.RegisterHandler(topic, h.Handler)
+	}
 	return s.topicsStore.Update(func(tx storage.Tx) error {
 		return tx.Delete(topic)
 	})
